@@ -1,0 +1,37 @@
+//go:build verif
+
+package rtpmpeg1video
+
+// Contracts checked by /verif/govc (see /verif/DESIGN.md). Comment-only file.
+
+// C08: what the decoder keeps between calls stays within the maximum frame size, for every
+// packet sequence (the partial slice being reassembled and the slices of the current frame).
+//@ typeinv Decoder d
+//@   inv[C08] 0 <= d.fragmentsSize && d.fragmentsSize <= 1048576
+//@   inv[C08] 0 <= d.sliceBufferSize && d.sliceBufferSize <= 1048576
+
+//@ func joinFragments
+//@   opt safety-tag=C08
+//@   requires size >= 0 && size <= 4194304
+//@   ensures[C08] len(ret) == size
+//@   modifies fresh
+//@   loop 1
+//@     invariant _i >= 0 && 0 <= n && n <= size && len(ret) == size && fresh(ret)
+
+//@ func (d *Decoder) resetFragments
+//@   opt typeinv=off
+//@   ensures[C08] d.fragmentsSize == 0 && len(d.fragments) == 0
+//@   modifies d.fragments, d.fragmentsSize
+
+//@ func (d *Decoder) decodeSlice
+//@   opt safety-tag=C08
+//@   requires pkt != nil && len(pkt.Payload) <= 65535
+//@   ensures[C08] err == nil ==> len(ret) <= 1048576 + 65535
+//@   ensures[C08] d.sliceBufferSize == old(d.sliceBufferSize)
+//@   modifies d.fragments, d.fragmentsSize, d.fragmentNextSeqNum, elems(d.fragments), fresh
+
+//@ func (d *Decoder) Decode
+//@   opt safety-tag=C08
+//@   requires pkt != nil && len(pkt.Payload) <= 65535
+//@   ensures[C08] err == nil ==> len(ret) <= 1048576
+//@   modifies *
